@@ -129,12 +129,37 @@ type ttOutB struct {
 	Big   int64            `json:"big,omitempty"`
 }
 
+// an output type with its own MarshalJSON: the JSON is not what the Go type suggests (an array, a string,
+// null), or marshalling fails
+type ttOutMJ struct {
+	Mode string `json:"mode"`
+	V    int64  `json:"v"`
+}
+
+func (o ttOutMJ) MarshalJSON() ([]byte, error) {
+	switch o.Mode {
+	case "arr":
+		return []byte(fmt.Sprintf("[%d]", o.V)), nil
+	case "str":
+		return []byte(fmt.Sprintf("%q", strconv.FormatInt(o.V, 10))), nil
+	case "null":
+		return []byte("null"), nil
+	case "err":
+		return nil, errors.New("ttOutMJ: cannot be marshalled")
+	}
+	type plain ttOutMJ
+	return json.Marshal(plain(o))
+}
+
 // what the handler has been told to do for the current call, and what it saw
 type ttCallSpec struct {
 	out     string // "nilptr" | "nilany" | raw JSON to unmarshal into Out
 	anyx    bool   // the handler puts int64/uint64 (not float64) into the `any` positions of its output
 	content string // n N 0 1 2
 	herr    int
+	// members of the *CallToolResult the handler sets ITSELF, next to its typed output (hise=1, hsc=x<json>)
+	hise bool
+	hsc  string
 }
 type ttObs struct {
 	inv  int
@@ -191,6 +216,15 @@ func ttHandle[In, Out any](ctl *ttCtl, name string, in In) (res *CallToolResult,
 		res = &CallToolResult{Content: []Content{&TextContent{Text: "c0"}}}
 	case "2":
 		res = &CallToolResult{Content: []Content{&TextContent{Text: "c0"}, &TextContent{Text: "c1"}}}
+	}
+	if c.hise || c.hsc != "" {
+		if res == nil {
+			res = &CallToolResult{}
+		}
+		res.IsError = c.hise
+		if c.hsc != "" {
+			res.StructuredContent = json.RawMessage(c.hsc)
+		}
 	}
 	rt := reflect.TypeFor[Out]()
 	switch c.out {
@@ -303,7 +337,7 @@ var ttRegs = []ttReg{
 	ttMk[ttInA, []int64]("A/SI"), ttMk[ttInA, []ttDeep]("A/SD"), ttMk[ttInA, string]("A/S"),
 	ttMk[ttInA, int64]("A/I"), ttMk[ttInA, float64]("A/F"), ttMk[ttInA, bool]("A/BO"),
 	ttMk[ttInA, map[string]any]("A/M"), ttMk[ttInA, map[string]int64]("A/MI"), ttMk[ttInA, any]("A/Y"),
-	ttMk[ttInA, *int64]("A/PI"),
+	ttMk[ttInA, *int64]("A/PI"), ttMk[ttInA, ttOutMJ]("A/MJ"),
 	ttMk[ttInB, ttOutB]("B/B"), ttMk[map[string]any, any]("M/Y"), ttMk[ttInE, map[string]any]("E/M"),
 	ttMk[any, any]("Y/Y"), ttMk[ttInB, []int64]("B/SI"),
 	ttMk[ttInC, ttOutA]("C/A"), ttMk[*ttInC, ttOutA]("PC/A"), ttMk[ttInC, ttOutC]("C/C"), ttMk[ttInC, *ttOutC]("C/PC"),
@@ -2275,6 +2309,13 @@ func (w *ttWorld) callPrep1(toks []string, run *ttCallRun) (op string, obs strin
 	}
 	spec := &ttCallSpec{content: ttKV(toks, "content"), anyx: ttKV(toks, "anyx") == "1"}
 	spec.herr, _ = strconv.Atoi(ttKV(toks, "herr"))
+	spec.hise = ttKV(toks, "hise") == "1"
+	if hb, ok := ttUnhex(ttKV(toks, "hsc")); ok {
+		spec.hsc = string(hb)
+	}
+	if spec.hise || spec.hsc != "" {
+		tags = append(tags, "hset", fmt.Sprintf("hset:ise=%v,sc=%v", spec.hise, spec.hsc != ""))
+	}
 	o := ttKV(toks, "out")
 	if o == "nilptr" || o == "nilany" {
 		spec.out = o
@@ -2288,9 +2329,13 @@ func (w *ttWorld) callPrep1(toks []string, run *ttCallRun) (op string, obs strin
 		}
 		hb, e := json.Marshal(pv.Elem().Interface())
 		if e != nil {
-			return op, "harness-error " + hxs("cannot marshal the output: "+e.Error()), tags
+			// json.Marshal refuses the value the handler is going to return
+			hb = nil
+			op += " hout=!"
+			tags = append(tags, "out:marshal-error")
+		} else {
+			op += " hout=x" + hx(hb)
 		}
-		op += " hout=x" + hx(hb)
 		if hv, e := ttParse(hb); e == nil && ttHasU64(hv) {
 			tags = append(tags, "u64-out")
 		}
@@ -2444,8 +2489,19 @@ func (w *ttWorld) callFinish1(r *ttCallRun) (obs string, tags []string) {
 		seen = ttCanonBytes(ob.seen)
 	}
 	olib := "-"
-	if ob.inv > 0 && spec.herr == 0 && ob.hout != nil && ti.hasOut {
-		hv, perr := ttParse(ob.hout)
+	// the output that is validated: the typed output; for a nil `any` the structured content the handler set
+	// itself, else (no error result declared) JSON null
+	effOut := ob.hout
+	if spec.out == "nilany" || (ti.outTy.Kind() == reflect.Interface && string(ob.hout) == "null") {
+		switch {
+		case spec.hsc != "":
+			effOut = []byte(spec.hsc)
+		case spec.hise:
+			effOut = nil
+		}
+	}
+	if ob.inv > 0 && spec.herr == 0 && effOut != nil && ti.hasOut {
+		hv, perr := ttParse(effOut)
 		if perr == nil {
 			if hv == nil && ti.outObj {
 				hv = map[string]any{}
@@ -2496,7 +2552,34 @@ func (w *ttWorld) callFinish1(r *ttCallRun) (obs string, tags []string) {
 			scCanon = ttCanonBytes(structured)
 			sc = scCanon
 		}
-		if wire.IsError {
+		// the content blocks one by one: a handler's own text (t<hex>), the serialised structured content (=sc)
+		blocks := func() string {
+			var bl []string
+			for _, c := range wire.Content {
+				if c.Type != "text" {
+					bl = append(bl, "k"+hxs(c.Type))
+					continue
+				}
+				if hasSC {
+					if tv, e := ttParse([]byte(c.Text)); e == nil && ttCanon(tv) == scCanon {
+						bl = append(bl, "=sc")
+						continue
+					}
+				}
+				bl = append(bl, "t"+hxs(c.Text))
+			}
+			if len(bl) == 0 {
+				return "-"
+			}
+			return strings.Join(bl, ";")
+		}
+		if wire.IsError && spec.hise && ob.inv > 0 && spec.herr == 0 {
+			// an error result the HANDLER declared (IsError set on the result it returned): its content is the
+			// handler's own, observed block by block
+			kind = "toolerr"
+			tags = append(tags, "res:toolerr-hset")
+			content = blocks()
+		} else if wire.IsError {
 			kind = "toolerr"
 			ek := "other"
 			if len(wire.Content) == 1 {
@@ -2521,23 +2604,7 @@ func (w *ttWorld) callFinish1(r *ttCallRun) (obs string, tags []string) {
 		} else {
 			kind = "ok"
 			tags = append(tags, "res:ok")
-			var bl []string
-			for _, c := range wire.Content {
-				if c.Type != "text" {
-					bl = append(bl, "k"+hxs(c.Type))
-					continue
-				}
-				if hasSC {
-					if tv, e := ttParse([]byte(c.Text)); e == nil && ttCanon(tv) == scCanon {
-						bl = append(bl, "=sc")
-						continue
-					}
-				}
-				bl = append(bl, "t"+hxs(c.Text))
-			}
-			if len(bl) > 0 {
-				content = strings.Join(bl, ";")
-			}
+			content = blocks()
 			if sc != "-" {
 				tags = append(tags, "structured", "sc:"+ttJSONKind("x"+hx(structured)), era+"-"+peerKind+"-sc:"+ttJSONKind("x"+hx(structured)))
 			}
@@ -2658,6 +2725,7 @@ type ttGenPtr struct {
 }
 
 type ttCaseGen struct {
+	hset  bool // the next call's handler sets a StructuredContent of its own
 	g     *ttGen
 	lines []string
 	ptrs  []ttGenPtr
@@ -2809,6 +2877,8 @@ func (c *ttCaseGen) addCallWith(t *ttGenTool, args, atag, out string) {
 	}
 	switch {
 	case out != "":
+	case t.reg.name == "A/MJ" && g.coin(0.7):
+		out = "x" + hxs(fmt.Sprintf(`{"mode":%q,"v":%d}`, g.pick("arr", "str", "null", "err", "obj"), g.smallInt()))
 	case t.outTy.K == "ptr" && g.coin(0.3):
 		out = "nilptr"
 	case t.outTy.K == "any" && g.coin(0.2):
@@ -2839,7 +2909,25 @@ func (c *ttCaseGen) addCallWith(t *ttGenTool, args, atag, out string) {
 	if g.coin(0.5) {
 		anyx = 1
 	}
-	c.lines = append(c.lines, fmt.Sprintf("call tool=%s args=%s out=%s anyx=%d content=%s herr=%d gen=%s", t.name, args, out, anyx, content, herr, strings.TrimPrefix(atag, "gen:")))
+	line := fmt.Sprintf("call tool=%s args=%s out=%s anyx=%d content=%s herr=%d gen=%s", t.name, args, out, anyx, content, herr, strings.TrimPrefix(atag, "gen:"))
+	// 8 % (and always when asked for): the handler ALSO sets members of the result it returns itself: IsError,
+	// and/or a StructuredContent of its own — an instance generated against the tool's output schema (valid
+	// or one-mutation-invalid) or an arbitrary value
+	if c.hset || g.coin(0.08) {
+		hise, hsc := 0, "-"
+		if !c.hset && g.coin(0.5) {
+			hise = 1
+		}
+		if c.hset || hise == 0 || g.coin(0.5) {
+			tx, _ := g.instance(t.oschV)
+			if g.coin(0.15) {
+				tx = ttEnc(g.anyValue(0))
+			}
+			hsc = "x" + hxs(tx)
+		}
+		line += fmt.Sprintf(" hise=%d hsc=%s", hise, hsc)
+	}
+	c.lines = append(c.lines, line)
 }
 
 // addOverlap emits a group of overlapping calls (ovl=1..n), one per given tool: generated like any other
@@ -2851,6 +2939,27 @@ func (c *ttCaseGen) addOverlap(ts ...*ttGenTool) {
 		// its handler, before the handler looks at its input (h)
 		c.lines[len(c.lines)-1] += fmt.Sprintf(" ovl=%d hold=%s", i+1, c.g.pick("a", "a", "h"))
 	}
+}
+
+// input schemas Server.AddTool refuses: the root type is not (the single string) "object"
+var ttNonObjectInputSchemas = []string{`{"type":"array"}`, `{"type":"string"}`, `{}`, `{"type":["object","null"]}`,
+	`{"type":"integer"}`, `{"properties":{"name":{"type":"string"}}}`}
+
+// addRefused emits a registration that AddTool must refuse (toolForErr succeeds — the SchemaCache may be
+// written —, Server.AddTool panics): a declared input schema whose root type is not "object", under the
+// given name (a new one, or the name of a registered tool, which must stay as it is).
+func (c *ttCaseGen) addRefused(name string, reg *ttReg) {
+	v, _ := ttParse([]byte(c.g.pick(ttNonObjectInputSchemas...)))
+	var osch any
+	if c.g.coin(0.3) && ttDescribe(reg.out).K != "any" {
+		osch = ttDerive(reg.out)
+	}
+	// no pointer handed over earlier is re-used here (it would bring its own, object-rooted schema along), and
+	// the pointers of a refused registration are not offered to later registrations
+	keep := c.ptrs
+	c.ptrs = nil
+	c.emitTool(name, reg, v, osch)
+	c.ptrs = keep
 }
 
 // session draws the protocol version and the kind of peer of a server of the case: the SDK client left
@@ -2868,7 +2977,7 @@ func (g *ttGen) session() string {
 // the registrations of the version matrix: one per kind of output (object, nil pointer to an object,
 // array, array of objects, string, number — signed, unsigned, float —, boolean, nil pointer to a number,
 // map, `any`)
-var ttMatrixRegs = []string{"A/A", "A/PA", "A/SI", "A/SD", "A/S", "A/I", "A/UI", "A/F", "A/BO", "A/PI", "A/M", "A/Y"}
+var ttMatrixRegs = []string{"A/A", "A/PA", "A/SI", "A/SD", "A/S", "A/I", "A/UI", "A/F", "A/BO", "A/PI", "A/M", "A/MJ", "A/Y"}
 
 // the explicit output schemas of the matrix for Out = any: one per JSON root type
 var ttMatrixAnySchemas = []string{`{"type":"object"}`, `{"type":"array"}`, `{"type":"string"}`, `{"type":"number"}`,
@@ -2909,6 +3018,11 @@ func ttMatrixCase(r *rand.Rand, ver, peer string) []string {
 			c.addCallWith(t, "", "", "nilptr")
 		case "any":
 			c.addCallWith(t, "", "", "nilany")
+			// a nil output, and the handler sets the structured content itself (twice)
+			c.hset = true
+			c.addCallWith(t, "", "", "nilany")
+			c.addCallWith(t, "", "", "nilany")
+			c.hset = false
 		case "slice", "map":
 			c.addCallWith(t, "", "", "x"+hxs("null")) // a nil slice / map: JSON null
 		}
@@ -2929,7 +3043,14 @@ func ttMatrixCase(r *rand.Rand, ver, peer string) []string {
 			continue
 		}
 		n++
-		calls(c.emitTool(fmt.Sprintf("t%d", n), reg, nil, nil)) // both sides derived
+		first := c.emitTool(fmt.Sprintf("t%d", n), reg, nil, nil) // both sides derived
+		calls(first)
+		if n == 1 {
+			// a refused registration under the name of the tool just registered; the tool stays what it was
+			c.addRefused(first.name, ttRegByName("B/A"))
+			c.addCall(first)
+			c.addRefused("r0", reg)
+		}
 		n++
 		calls(c.addTool(fmt.Sprintf("t%d", n), reg, 0.5, 1)) // a declared output schema
 	}
@@ -3014,6 +3135,17 @@ func ttGenCase(r *rand.Rand, nCalls int) []string {
 						cur = append(cur[:j], cur[j+1:]...)
 						break
 					}
+				}
+			}
+			if g.coin(0.08) {
+				// a refused registration first: under a new name, or under the name of a tool of this server,
+				// which is then called (it must be the tool it was)
+				if len(cur) > 0 && g.coin(0.6) {
+					old := cur[g.r.Intn(len(cur))]
+					c.addRefused(old.name, reg)
+					c.addCall(old)
+				} else {
+					c.addRefused(fmt.Sprintf("r%d", n), reg)
 				}
 			}
 			t := c.addTool(name, reg, 0.5, 0.5)
